@@ -29,7 +29,7 @@ func vRange(a, b, c int) any { return map[string]any{"r": []any{a, b, c}} }
 
 // vElems is "s".elems(): an iterable of one-character strings that has no length.
 func vElems(s string) any { return map[string]any{"e": s} }
-func vFn(name string) any    { return map[string]any{"f": name} }
+func vFn(name string) any { return map[string]any{"f": name} }
 func vDict(kv ...any) any {
 	pairs := []any{}
 	for i := 0; i+1 < len(kv); i += 2 {
